@@ -9,7 +9,7 @@ enum Source { Iter(Expr), IterMut(Expr), Range(Expr, Expr), VecVal(Expr), SliceR
 #[derive(Debug)]
 enum Adapter { Enumerate, Zip(Source), Filter(ExprClosure), Map(ExprClosure), FilterMap(ExprClosure), Rev }
 #[derive(Debug)]
-enum Sink { MinBy(ExprClosure), ForEach(ExprClosure), Fold(Expr, ExprClosure), All(ExprClosure), Any(ExprClosure), Count, Collect, Find(ExprClosure), TryFold(Expr, ExprClosure), ForLoop(Pat, syn::Block) }
+enum Sink { TryForEach(ExprClosure), MinBy(ExprClosure), ForEach(ExprClosure), Fold(Expr, ExprClosure), All(ExprClosure), Any(ExprClosure), Count, Collect, Find(ExprClosure), TryFold(Expr, ExprClosure), ForLoop(Pat, syn::Block) }
 
 struct Chain { source: Source, adapters: Vec<Adapter>, }
 
@@ -141,6 +141,16 @@ impl Lower {
                 (quote!(let mut #r = true;), quote!(if !(#call) { #r = false; break; }), quote!(#r)) }
             Sink::Any(c) => { let r = self.fresh("res"); self.last_sink_name = Some(("res".into(), r.clone())); let call = self.inline(c, vec![quote!(#it)]);
                 (quote!(let mut #r = false;), quote!(if #call { #r = true; break; }), quote!(#r)) }
+            Sink::TryForEach(c) => {
+                // std: stop at the first Err and return it, Ok(()) otherwise.  `return E;` inside the closure leaves the closure only:
+                // the simple shape `if C { return E; } REST` is rewritten to `if C { E } else { REST }` (anything else is left alone
+                // and then rejected by the verifier's front end)
+                let mut c2 = c.clone();
+                if let Expr::Block(b) = &mut *c2.body { elim_returns(&mut b.block); }
+                let r = self.fresh("tfe"); self.last_sink_name = Some(("tfe".into(), r.clone()));
+                let e = self.fresh("e");
+                let call = self.inline(&c2, vec![quote!(#it)]);
+                (quote!(let mut #r = Ok(());), quote!(match #call { Ok(_) => {} Err(#e) => { #r = Err(#e); break; } }), quote!(#r)) }
             Sink::MinBy(c) => {
                 // std: fold keeping the earlier element unless the later one compares strictly smaller (first minimum wins)
                 let r = self.fresh("best"); self.last_sink_name = Some(("best".into(), r.clone()));
@@ -238,6 +248,7 @@ impl Lower {
             "any" => Sink::Any(closure_arg(m, 0)?),
             "count" => Sink::Count,
             "min_by" => Sink::MinBy(closure_arg(m, 0)?),
+            "try_for_each" => Sink::TryForEach(closure_arg(m, 0)?),
             "collect" => Sink::Collect,
             "find" => Sink::Find(closure_arg(m, 0)?),
             "try_fold" => Sink::TryFold(m.args.first()?.clone(), closure_arg(m, 1)?),
@@ -248,6 +259,29 @@ impl Lower {
     }
 }
 
+// `if C { return E; } REST...`  ->  `if C { E } else { REST... }` (closure-level returns of the simple guard shape)
+fn elim_returns(b: &mut syn::Block) {
+    let mut i = 0;
+    while i < b.stmts.len() {
+        let is_guard = match &b.stmts[i] {
+            syn::Stmt::Expr(Expr::If(ife), _) => ife.else_branch.is_none() && ife.then_branch.stmts.len() == 1 && matches!(&ife.then_branch.stmts[0], syn::Stmt::Expr(Expr::Return(r), _) if r.expr.is_some()),
+            _ => false,
+        };
+        if is_guard {
+            let rest: Vec<syn::Stmt> = b.stmts.drain(i + 1..).collect();
+            let mut rest_block: syn::Block = parse_quote!({ #(#rest)* });
+            elim_returns(&mut rest_block);
+            if let syn::Stmt::Expr(Expr::If(ife), _) = b.stmts.remove(i) {
+                let cond = &ife.cond;
+                let val = match &ife.then_branch.stmts[0] { syn::Stmt::Expr(Expr::Return(r), _) => r.expr.clone().unwrap(), _ => unreachable!() };
+                let e: Expr = parse_quote!(if #cond { #val } else #rest_block);
+                b.stmts.push(syn::Stmt::Expr(e, None));
+            }
+            return;
+        }
+        i += 1;
+    }
+}
 fn has_ref_pat(p: &Pat) -> bool {
     match p { Pat::Reference(_) => true, Pat::Tuple(t) => t.elems.iter().any(has_ref_pat), Pat::TupleStruct(t) => t.elems.iter().any(has_ref_pat), Pat::Paren(x) => has_ref_pat(&x.pat), _ => false }
 }
